@@ -204,9 +204,32 @@ def r3(ctx, chk):
            "regex source %s" % sorted(rx_src), key={"function": f.key, "construct": "info['regex'].search"},
            file=f.file, function=f.qual, line=lp.lineno)
     # first match returns (return inside `if match:` inside the loop)
-    rets = [n for n in ast.walk(lp) if isinstance(n, ast.Return)]
-    chk.ob(rule, "the first matching entry returns", len(rets) == 1, "",
-           key={"function": f.key, "construct": "return in loop"}, file=f.file, function=f.qual, line=lp.lineno)
+    # after a match every path returns (one return, or one per kind of result); no path goes on to the next entry
+    def always_returns(stmts):
+        if not stmts:
+            return False
+        last = stmts[-1]
+        if isinstance(last, ast.Return):
+            return True
+        return isinstance(last, ast.If) and always_returns(last.body) and always_returns(last.orelse)
+    match_vars = {ast.unparse(a.targets[0]) for a in ast.walk(lp) if isinstance(a, ast.Assign) and any(c is a.value for c in searches)}
+    verdict = None
+    for i_, st_ in enumerate(lp.body):
+        if not isinstance(st_, ast.If):
+            continue
+        t_, neg_ = st_.test, False
+        while isinstance(t_, ast.UnaryOp) and isinstance(t_.op, ast.Not):
+            t_, neg_ = t_.operand, not neg_
+        if (isinstance(t_, ast.Name) and t_.id in match_vars) or any(t_ is c for c in searches):
+            if not neg_:
+                verdict = always_returns(st_.body)
+            else:
+                verdict = bool(st_.body) and isinstance(st_.body[-1], ast.Continue) and not st_.orelse and always_returns(lp.body[i_ + 1:])
+    if verdict is None:
+        chk.error(rule, "pop_tz_offset_from_string: the test on the entry's match was not found in the loop")
+    else:
+        chk.ob(rule, "the first matching entry returns", verdict, "after a match some path goes on to later entries of the table",
+               key={"function": f.key, "construct": "return in loop"}, file=f.file, function=f.qual, line=lp.lineno)
     # span removal keeps the captured leading character
     ok = False
     for n in ast.walk(lp):
